@@ -54,6 +54,11 @@ def run(ctx):
         for p in r.payloads:
             if p["n_beta"] != p["iteration"]:
                 ctx.violation("payload-stale", f"payload at iteration {p['iteration']} carries a history of {p['n_beta']} iterations", {"cfg": cfg})
+            # "the most recent checkpoint payload": the population it holds is the one AT the temperature it records
+            if p.get("pop_beta") is not None and p["pop_beta"] != p["beta"]:
+                ctx.violation("payload-population-at-other-temperature" + (":forced-final" if p["forced"] else ""),
+                              f"the payload of iteration {p['iteration']} records temperature {p['beta']} but holds a population at temperature {p['pop_beta']}",
+                              {"cfg": cfg, "iteration": p["iteration"], "forced_final": p["forced"]})
         if cfg["ckpt"] == "every-only" and r.payloads:
             # no callback given: the sampler keeps the latest payload itself (last_checkpoint_state / last_checkpoint_bytes)
             last = r.payloads[-1]
